@@ -22,8 +22,10 @@ COUNTS = dict(quick=2500, thorough=30000)
 RULE = ('cases = (2/3) flat machines of the C01 generator x queued in {False, True, "model"} x 1-2 models x histories '
         'of 1-5 awaited calls (trigger(name) / event method / may_trigger, unknown events) x replies keyed by '
         '(event payload, callback): condition values, triggers awaited from callbacks of queued machines (processed '
-        'later, FIFO), one raising callback (Exception/BaseException) in 1/4 of the cases; (1/3) hierarchical machines of '
-        'the C03 generator (depth <= 3, parallel regions) on HierarchicalAsyncMachine, histories of 1-4 calls incl. '
+        'later, FIFO; with queued=True and 2-3 models also events queued for other models followed by ONE remove_model call '
+        'with a list of models), one raising callback (Exception/BaseException) in 1/4 of the cases; (1/3) hierarchical '
+        'machines of the C03 generator (depth <= 3, parallel regions; half of them multi-scope: the same event declared '
+        'inside state definitions and in enclosing scopes) on HierarchicalAsyncMachine, histories of 1-4 calls incl. '
         'may_trigger.  Every callback, condition and unless-check is independently a plain function, a coroutine function, '
         'a coroutine that suspends once or twice (asyncio.sleep(0)), or a PLAIN function returning a non-coroutine '
         'awaitable: an already resolved asyncio.Future, a pending Future resolved through loop.call_soon, an asyncio.Task '
@@ -32,7 +34,9 @@ RULE = ('cases = (2/3) flat machines of the C01 generator x queued in {False, Tr
         'discipline is checked with stages = registration lists (no callback starts while a callback of another list - e.g. '
         'the exit/enter/on_final list of another state - is still running; nothing is left running); extra stream: '
         'hierarchical machines (depth <= 3, parallel) with <= 1 callback per list, every callback suspending cb % 3 times '
-        'and logging on COMPLETION, compared exactly with the synchronous Hsm model.  Non-trivial: some stage has >= 2 callbacks of which >= 1 suspends (Ends interleave), or '
+        'and logging on COMPLETION, compared exactly with the synchronous Hsm model; extra stream: unqueued hierarchical '
+        'machines whose callbacks (any stage, also of transitions declared inside nested state definitions) AWAIT further '
+        'triggers, compared exactly with the re-entrant hierarchical model HReent.v (kind 19).  Non-trivial: some stage has >= 2 callbacks of which >= 1 suspends (Ends interleave), or '
         'a failed check is followed by further checks of the same candidate (the licensed difference), or >= 2 events '
         'were processed in one call; distinct by case hash.')
 ASSUMPTIONS = ['asyncio: FIFO ready queue, gather() schedules its arguments in order, sleep(0) re-queues behind ready tasks '
@@ -49,7 +53,7 @@ THEOREMS = ['C07_flat', 'C07_flat_named', 'C07_flat_documented_order', 'C07_flat
             'C07_cond_value', 'C07_example', 'C07_unknown_event', 'C07_flat_any_name', 'C07_unknown_event_example',
             'C07_raise_stage_refuted', 'C07_queue_refines', 'C07_queue_top_refines', 'C07_queue_shared',
             'C07_queue_fifo_once', 'C07_queue_raise_discards', 'C07_queue_top', 'C07_queue_deferred',
-            'C07_queue_example', 'C07_nested', 'C07_nested_may', 'C07_nested_stage_starts',
+            'C07_queue_remove_exact', 'C07_queue_example', 'C07_nested', 'C07_nested_may', 'C07_nested_stage_starts',
             'C07_nested_cond_awaitable', 'C07_nested_example']
 THEOREM_OF_DIFF = 'corr_C07: Async.v (flat) / AsyncHsm.v (hierarchical, exact Start/End events) and Hsm.v up to stage_view vs transitions.extensions.asyncio'
 
@@ -157,7 +161,7 @@ def gen_flat(rng, i, nested_unqueued=False):
         ncb += 1
         m['finalize'] = [ncb]              # every processed event is visible
     ns, ne = len(m['states']), len(m['events'])
-    nm = rng.choice([1, 1, 2])
+    nm = rng.choice([1, 1, 2, 3]) if mode == 1 else rng.choice([1, 1, 2])
     models = [(k, rng.randrange(ns)) for k in range(nm)]
     hist = [(rng.randrange(nm), k, e, a) for (k, e, a) in base['history']]
     checks = {c for _, ts in m['events'] for t in ts for c, _ in t['conds']}
@@ -194,6 +198,15 @@ def gen_flat(rng, i, nested_unqueued=False):
                     for _ in range(rng.randint(1, 2)):
                         tm = rng.randrange(nm)
                         acts.append((0, tm, rng.randrange(ne)))
+                    if mode == 1 and nm > 1 and rng.random() < 0.35:
+                        # queued=True: events queued for other models, then remove_model of a LIST of models
+                        for tm in range(nm):
+                            if rng.random() < 0.7:
+                                acts.append((0, tm, rng.randrange(ne)))
+                        for tm in rng.sample(range(nm), rng.randint(1, nm)):
+                            acts.append((1, tm))
+                        if rng.random() < 0.3:
+                            acts.append((0, rng.randrange(nm), rng.randrange(ne)))
                     old = env['bykey'].get(_key(p, c), (val(c), None, []))
                     env['bykey'][_key(p, c)] = (old[0], None, acts)
     case = dict(tag=0, machine=m, env=env, flavour=flavour, susp_key=susp_key, mode=mode, models=models,
@@ -270,7 +283,7 @@ def fix_per_model(case):
 
 
 def gen_hsm(rng, i):
-    base = hsm.gen_case(rng, hist_len=rng.randint(1, 4), may=(rng.random() < 0.25), single_scope=True)
+    base = hsm.gen_case(rng, hist_len=rng.randint(1, 4), may=(rng.random() < 0.25), single_scope=(rng.random() < 0.5))
     base['env']['bypos'] = {}                 # position-free replies: the async machine evaluates more checks
     base['env']['bycb'] = {str(k): v for k, v in base['env']['bycb'].items()}
     case = dict(tag=1, machine=base['machine'], env=base['env'], model=0, init=base['init'], history=base['history'],
@@ -415,8 +428,11 @@ class AWorld(flat.World):
                 ret, exc, acts, payload = start(args, kwargs)
                 try:
                     if not world.asynchronous:
-                        for a in acts:
-                            world.do_action(a, payload)
+                        for g in group_actions(acts):
+                            if g[0][0] == 1:
+                                world.do_remove(g, payload)
+                            else:
+                                world.do_action(g[0], payload)
                     if exc is not None:
                         raise exc
                 except BaseException:
@@ -473,8 +489,11 @@ class AWorld(flat.World):
             async def rec(*args, **kwargs):
                 ret, exc, acts, payload = start(args, kwargs)
                 try:
-                    for a in acts:
-                        await world.do_action(a, payload)
+                    for g in group_actions(acts):
+                        if g[0][0] == 1:
+                            world.do_remove(g, payload)          # remove_model is a plain method
+                        else:
+                            await world.do_action(g[0], payload)
                     for _ in range(world.susp(cb, payload)):
                         await asyncio.sleep(0)
                     if exc is not None:
@@ -486,6 +505,18 @@ class AWorld(flat.World):
                 return ret
         rec.__name__ = '%s_%d' % (slot, cb)
         return rec
+
+
+def group_actions(acts):
+    """a run of consecutive remove_model actions is issued as ONE call remove_model([m1, m2, ...]) (same effect as the
+    single calls in sequence: exactly their pending events go); triggers one by one"""
+    out = []
+    for a in acts:
+        if a[0] == 1 and out and out[-1][0][0] == 1:
+            out[-1].append(a)
+        else:
+            out.append([a])
+    return out
 
 
 def _blocks(events, payload_id, own):
@@ -553,6 +584,17 @@ def run_flat(case, asynchronous):
             r = models[a[1]].trigger('e%d' % a[2], tok, k=tok)
             nested_results.append(r is True)
     world.do_action = ado if asynchronous else sdo
+
+    def do_remove(group, payload):
+        mods = []
+        for a in group:
+            nested_payload(payload)                   # every action of an event is numbered
+            mod = models[a[1]]
+            if mod in machine.models and not any(mod is g for g in mods):
+                mods.append(mod)
+        if mods:
+            machine.remove_model(mods if len(mods) > 1 else mods[0])
+    world.do_remove = do_remove
     out = []
     leftovers = [0]
 
@@ -563,7 +605,8 @@ def run_flat(case, asynchronous):
             res = [0, 1 if r is True else (0 if r is False else 7)]
         out.append([_blocks(world.events, st['payload_id'], own), res,
                     [[k, flat.state_int(mod)] for (k, _), mod in zip(case['models'], models)],
-                    [ev[-1] for ev in world.events if ev[0] == 0]])
+                    [ev[-1] for ev in world.events if ev[0] == 0],
+                    [world.model_ids[id(x)] for x in machine.models]])
 
     if asynchronous:
         async def drive():
@@ -728,7 +771,7 @@ def canon(case, obs):
         return [1, sync[1], steps, events, flag, 'sync-impl-agrees']
     # flat
     if isinstance(obs, dict):
-        return [1, [[[[b[0], b[1], b[2], b[3]] for b in st[0]], st[1], st[2]] for st in obs['a']],
+        return [1, [[[[b[0], b[1], b[2], b[3]] for b in st[0]], st[1], st[2], st[4]] for st in obs['a']],
                 'sync-model-agrees', oracle_raw(case, obs) or 'sync-impl-agrees']
     if obs[0] != 1:
         return obs
@@ -739,7 +782,7 @@ def canon(case, obs):
             continue
         blocks, res, states = step[0], step[1], step[2]
         bl = [[b[0], b[3], b[4], b[5]] for b in blocks if b[4]]
-        steps.append([bl, [res[0], res[1]] if res[0] == 1 else [0, res[1]], states])
+        steps.append([bl, [res[0], res[1]] if res[0] == 1 else [0, res[1]], states, step[4]])
     return [1, steps, model_sync_flag(case, obs), 'sync-impl-agrees']
 
 
@@ -865,6 +908,8 @@ def oracle_raw(case, obs):
             return 'call %d: events are nested/ordered differently (%r vs %r)' % (idx, _rle(sa[3]), _rle(ss[3]))
         if sa[2] != sstates:
             return 'call %d: model states differ from Machine' % idx
+        if sa[4] != ss[4]:
+            return 'call %d: registered models differ from Machine (%r vs %r)' % (idx, sa[4], ss[4])
         if sa[1] != sres:
             return 'call %d: result differs from Machine (%r vs %r)' % (idx, sa[1], sres)
     return None
@@ -1068,6 +1113,98 @@ def _probe_sibling():
     return out
 
 
+def impl_hsm_reent_async(case):
+    """async twin of hsm.impl_hsm_reent: HierarchicalAsyncMachine (unqueued); every callback is a coroutine that
+    suspends (cb % 3) times, then logs itself and AWAITS model.trigger(event) for each of its actions (payload
+    2000 + 8 * position + k as in the re-entrant engines).  With at most one callback per list the order of the
+    items is the synchronous one, so the observation is compared exactly with the re-entrant hierarchical model"""
+    world = flat.World(case['env'], case['machine']['send'])
+    world.state_of = hsm.state_forest
+    base = world.recorder
+    holder = {}
+
+    def arecorder(slot, cb, model_of_call=None):
+        inner = base(slot, cb, model_of_call)
+
+        async def rec(*args, **kwargs):
+            for _ in range(cb % 3):
+                await asyncio.sleep(0)
+            collected = []
+            world.perform = lambda a: collected.append((a, world.cur_pos, world.cur_k))
+            exc, ret = None, None
+            try:
+                ret = inner(*args, **kwargs)
+            except BaseException as e:  # noqa
+                exc = e
+            for a, pos, k in collected:
+                if a[0] == 0:
+                    tok = Token(2000 + 8 * pos + k)
+                    await holder['model'].trigger('e%d' % a[2], tok, k=tok)
+            if exc is not None:
+                raise exc
+            return ret
+        rec.__name__ = inner.__name__
+        return rec
+    world.recorder = arecorder
+    machine, model = hsm.build_hsm(case, world, flat.get_class('HierarchicalAsyncMachine'))
+    holder['model'] = model
+    world.model_ids[id(model)] = case.get('model', 0)
+    world.current_model = model
+    init_cfg = world.state_of(model)
+    out = []
+
+    async def run():
+        for e, a in case['history']:
+            tok = Token(a)
+            world.items = []
+            try:
+                r = await model.trigger('e%d' % e, tok, k=tok)
+                res = [0, bool(r)]
+            except BaseException as ex:  # noqa
+                res = [1, flat.classify_exc(ex)]
+            out.append([world.items, res, world.state_of(model)])
+    asyncio.run(run())
+    return [1, init_cfg, out]
+
+
+def hsm_reent_async_stream(seed, n):
+    """unqueued HierarchicalAsyncMachine whose callbacks (any stage, also of transitions declared inside nested state
+    definitions: half of the cases are multi-scope) await further triggers of the model, against the re-entrant
+    hierarchical model HReent.v (dispatch kind 19), which the synchronous classes are checked against by C05/C02"""
+    import framework as F
+    cases = []
+    for i in range(n):
+        rng = random.Random('C07-hreent-%d-%d' % (seed, i))
+        c = hsm.trim_lists(hsm.gen_case(rng, p_parallel=0.3, single_scope=(i % 2 == 0)))
+        evs = sorted({e for e, _ in c['machine']['events']} |
+                     {e for _, d in hsm.all_defs(c['machine']) for e, _ in d['events']}) or [0]
+        bypos = {p: (r[0], None, []) for p, r in c['env']['bypos'].items()}
+        for _ in range(rng.randint(1, 3)):
+            p = rng.randint(0, 14)
+            ret = bypos.get(p, (rng.random() < 0.7, None, []))[0]
+            bypos[p] = (ret, None, [(0, 0, rng.choice(evs)) for _ in range(rng.randint(1, 2))])
+        c['env'] = dict(default=c['env']['default'], bypos=bypos,
+                        bycb={k: (r[0], None, []) for k, r in c['env']['bycb'].items()})
+        c['history'] = [(e, a) for (k, e, a) in c['history'] if e < 50]
+        c['cls'] = 'HierarchicalAsyncMachine'
+        cases.append(c)
+    enc_ = [[hsm.enc_hmachine(c['machine']), hsm.enc_env(c['env']), 0, c['init'], [[e, a] for e, a in c['history']]]
+            for c in cases]
+    mo = F.run_model(19, enc_)
+    io = F.run_impl('c07', 'impl_hsm_reent_async', cases)
+    bad, nested = [], 0
+    for c, m, i in zip(cases, mo, io):
+        hc = dict(c, history=[(0, e, a) for e, a in c['history']])
+        mm, ii = hsm.mask_handled(hc, m), hsm.mask_handled(hc, hsm._stale_scope_exn(i))
+        if isinstance(mm, list) and mm[0] == 1:
+            nested += sum(1 for st in mm[2] for it in st[0] if it[4][1] >= 2000)
+            if any(st[1] == [1, [4, 99]] for st in mm[2]):
+                continue                  # out of fuel in the model (deeper than 12 levels): not compared
+        if mm != ii:
+            bad.append((c, mm, ii))
+    return cases, bad, nested
+
+
 def extra_checks(tier, seed):
     out = []
     # (1) queued=False with triggers awaited from callbacks: AsyncMachine against Machine (no Coq model of the
@@ -1101,6 +1238,17 @@ def extra_checks(tier, seed):
                                       first_difference='completion order / result / state of HierarchicalAsyncMachine '
                                                        'with suspending callbacks differs from the synchronous Hsm model',
                                       theorem='corr_C07 (hierarchical completion order)')))
+    # (1c) unqueued hierarchical machines whose callbacks await further triggers (also from transitions declared inside
+    # nested state definitions, where the machine is scoped to that state): against the re-entrant hierarchical model
+    n3 = 400 if tier == 'quick' else 5000
+    rc, rbad, rnested = hsm_reent_async_stream(seed, n3)
+    okr = not rbad
+    out.append(('hierarchical_awaited_triggers_vs_HReent_model', okr,
+                dict(cases=len(rc), nested_events=rnested, disagreements=len(rbad)),
+                None if okr else dict(kind='counterexample', case=rbad[0][0], model_obs=rbad[0][1], impl_obs=rbad[0][2],
+                                      first_difference='HierarchicalAsyncMachine with callbacks awaiting triggers differs '
+                                                       'from the re-entrant hierarchical model (HReent.v, kind 19)',
+                                      theorem='corr_C07 (hierarchical, triggers awaited from callbacks)')))
     # (2) regression of the fixed KF-C07-1 (D30) and the witness of the refuted statement KF-C07-2, replayed on /repo
     k1 = _probe_kf1()
     ok1 = k1[0] is False and k1[1] is False
